@@ -17,6 +17,7 @@ pub(super) fn ew_apply(op: u8, a: &Array, b: &Array) -> Array {
         1 => a - b,
         2 => a * b,
         3 => a / b,
+        5 => Array::axpy(0.0, a, b),
         _ => Array::axpy(EW_ALPHA, a, b),
     }
 }
@@ -27,6 +28,7 @@ pub(super) fn ew_scalar(op: u8, x: Float, y: Float) -> Float {
         1 => x - y,
         2 => x * y,
         3 => x / y,
+        5 => 0.0 * x + y,
         _ => EW_ALPHA * x + y,
     }
 }
